@@ -33,9 +33,9 @@ NATIVES = [
 ]
 
 
-def limited_replay(src, mem_gib=3, timeout=25):
+def limited_replay(src, mem_gib=3, timeout=25, profile='release'):
     """run one program in a child replay process under an address-space limit -> dict(outcome=..., detail=...)"""
-    b = driver.replay_bin('release')
+    b = driver.replay_bin(profile)
 
     def lim():
         resource.setrlimit(resource.RLIMIT_AS, (mem_gib << 30, mem_gib << 30))
@@ -64,6 +64,8 @@ def run(rep):
     for fn_name, tmpl, unit in NATIVES:
         ex = common.executor(unwind=3)
         ex.auto_havoc = True
+        # the size argument is a Number: its ToNumber conversion is executed for real so that sizes stay functions of the argument
+        ex.execute_real = [re.compile(r'^JsValue::to_number$')]
 
         def h_repeat(e, s, c):
             from emir.models import deref
@@ -103,6 +105,12 @@ def run(rep):
             if e.status == 'return' and isinstance(e.value, EnumV) and e.value.discr == 1:
                 continue      # refused with an error: fine
             nret += 1
+            if e.status == 'panic' and 'overflow' in e.detail:
+                # an arithmetic panic in the size computation itself (debug builds panic, release builds wrap and go on)
+                r, m = ex.check_sat_pc(e.st.pc, [])
+                if r == 'sat':
+                    worst = (m, 'panic: ' + e.detail[:90])
+                    break
             sizes = [ev[2] for ev in e.st.events if ev[0] == 'alloc']
             f2i = [ev[3] for ev in e.st.events if ev[0] == 'f2i' and ev[1] >= 32]
             # the size handed to an allocating call; for fill loops that ran past the unwinding bound, the converted script number bounds the loop
@@ -123,18 +131,26 @@ def run(rep):
             bits = m.eval(xbits, model_completion=True).as_long()
             xv = vmarms.bits_f64(bits)
             tried = []
-            for cand in [xv, 1e10, float(2 ** 32 - 1), float('inf')]:
+            done = False
+            for cand in [xv, 2.0 ** 63, 1e10, float(2 ** 32 - 1), float('inf')]:
                 if math.isnan(cand) or cand < 0:
                     continue
                 lit = 'Infinity' if math.isinf(cand) else repr(cand)
                 src = tmpl.format(n=lit)
-                o = limited_replay(src)
-                rep.validated += 1
-                tried.append((src, o))
-                if o['outcome'] in ('abort', 'panic', 'timeout'):
-                    p = rep.write_replay('alloc-%s' % fn_name, {'cmd': 'eval', 'src': src, 'memory_limit_gib': 3, 'observed': o})
-                    rep.violation(key, '%s: %s under a 3 GiB address-space limit -> %s (%s); a catchable RangeError is expected' % (fn_name, src, o['outcome'], o['detail']), p)
+                for profile in ('release', 'dev'):
+                    o = limited_replay(src, profile=profile)
+                    rep.validated += 1
+                    tried.append((src, o))
+                    if o['outcome'] in ('abort', 'panic', 'timeout'):
+                        p = rep.write_replay('alloc-%s' % fn_name, {'cmd': 'eval', 'src': src, 'memory_limit_gib': 3, 'profile': profile, 'observed': o})
+                        rep.violation(key, '%s: %s under a 3 GiB address-space limit -> %s in the %s build (%s); a catchable RangeError is expected' % (
+                            fn_name, src, o['outcome'], profile, o['detail']), p)
+                        done = True
+                        break
+                if done:
                     break
+            if done:
+                pass
             else:
                 rep.inconc('%s: solver counterexample %r (and %r) does not abort the real build: %r' % (fn_name, xv, [t[0] for t in tried], [t[1]['outcome'] for t in tried]))
         rep.vacuity.append('%s: %d non-error paths examined' % (fn_name, nret))
@@ -146,6 +162,6 @@ def run(rep):
 
 def replay_file(path):
     d = json.load(open(path))
-    o = limited_replay(d['src'])
+    o = limited_replay(d['src'], profile=d.get('profile', 'release'))
     print(json.dumps(o))
     return 1 if o['outcome'] in ('abort', 'panic', 'timeout') else 0
